@@ -52,7 +52,7 @@ class Modes(Stage):
         data = text.encode('utf-8')
         return dict(text=text, chunks=[gen_chunks(d, data), gen_chunks(d, data)], exit=d.choice([0, 0, 1, 2, 7, 99, 127, 255, d.int(0, 255)]),
                     argv=[d.choice(ARGS) for _ in range(d.int(0, 5))], marker=d.int(0, 9999), supress=d.chance(0.2), filter=d.choice([None, None, 'wl_display', '* ! .bind']),
-                    linger=d.choice([0, 0, 0, 0, 0, 0, 0, 1.3]), nmsg=len(specs), brk=d.choice([None, None, None, '.sync', 'wl_registry, wl_display', '*', 'wl_display ! .sync', '.bind']), parent_wayland_debug=d.choice([None, None, '1', 'client', 'server', '0', '']))
+                    linger=d.choice([0, 0, 0, 0, 0, 0, 0, 1.3]), nmsg=len(specs), exe=d.choice([None, None, None, 'child prog', 'a "b" c', 'back\\slash', 'x y z']), brk=d.choice([None, None, None, '.sync', 'wl_registry, wl_display', '*', 'wl_display ! .sync', '.bind']), parent_wayland_debug=d.choice([None, None, '1', 'client', 'server', '0', '']))
 
     def execute(self, case):
         res = Result()
@@ -65,6 +65,14 @@ class Modes(Stage):
         with cli.Scratch() as sc:
             log = sc.write('stream.log', data, 'wb')
             child = sc.write('child.py', cli.CHILD)
+            command = [cli.PY, child]
+            if case.get('exe') and not case['argv']:
+                # the program is one word, an executable whose path has blanks / quotes / a backslash in it; decoys with the
+                # names a split or unquoted version of that word would start report as well
+                command = [sc.write(case['exe'], '#!' + cli.PY + '\n' + cli.CHILD, exe=True)]
+                for variant in (case['exe'].split(), case['exe'].replace('\\', '').split(), case['exe'].replace('"', '').split()):
+                    if variant and variant[0] != case['exe'] and not os.path.exists(sc.path(variant[0])):
+                        sc.write(variant[0], '#!' + cli.PY + '\n' + cli.CHILD, exe=True)
             rc_f, out_f, err_f = cli.run_main(opts + ['-l', log], stdin=b'q\n')
             rc_p, out_p, err_p = cli.run_main(opts + ['-p'], stdin=data)
             res.evals += 2
@@ -104,12 +112,12 @@ class Modes(Stage):
                 extra = dict(WDV_CHILD_SPEC=spec)
                 if case.get('parent_wayland_debug') is not None:
                     extra['WAYLAND_DEBUG'] = case['parent_wayland_debug']     # wayland-debug itself started from such an environment
-                rc, out, err = cli.run_main(opts + ['-r', cli.PY, child] + case['argv'], stdin=b'r\n' * (case['nmsg'] + 2 if case.get('brk') else 0) + b'q\n', extra_env=extra)
+                rc, out, err = cli.run_main(opts + ['-r'] + command + case['argv'], stdin=b'r\n' * (case['nmsg'] + 2 if case.get('brk') else 0) + b'q\n', extra_env=extra)
                 res.evals += 1
                 if b'Failed to join subprocess thread' in err and linger:
                     # the program closed its stderr and exited 1.3 s later: the tool must wait for it and hand on its exit status.
                     # Confirm once more before calling it a violation (wall-clock effects must not raise an alarm)
-                    rc2, out2, err2 = cli.run_main(opts + ['-r', cli.PY, child] + case['argv'], stdin=b'r\n' * (case['nmsg'] + 2 if case.get('brk') else 0) + b'q\n', extra_env=extra)
+                    rc2, out2, err2 = cli.run_main(opts + ['-r'] + command + case['argv'], stdin=b'r\n' * (case['nmsg'] + 2 if case.get('brk') else 0) + b'q\n', extra_env=extra)
                     if rc2 != case['exit']:
                         res.bad('exit-status:lingering-program', 'program closed stderr, exited %d after 1.3 s; wayland-debug exited with %r twice (stderr %r)' % (case['exit'], rc2, err2[-200:]))
                     continue
@@ -147,6 +155,7 @@ class Modes(Stage):
         if not case['text'].endswith('\n'): res.label('no-final-newline')
         if any(ord(c) > 127 for c in case['text']): res.label('multi-byte')
         if case.get('brk'): res.label('with -b')
+        if case.get('exe') and not case['argv']: res.label('program-is-one-word')
         if '\r' in case['text']: res.label('carriage-return-in-chatter')
         if any(a.startswith('-') for a in case['argv']): res.label('option-lookalike-argv')
         if case.get('parent_wayland_debug') not in (None, '1'): res.label('parent-WAYLAND_DEBUG-set-otherwise')
